@@ -14,7 +14,7 @@ RULE = ("fault enumeration: every single-fault mutation of a valid call from the
 EXHAUSTIVE = {"quick": True, "thorough": True}
 FAULTS = ["numpy_input", "list_of_numpy", "none_input", "unknown_dim", "empty_dim", "all_dims_sample", "dim_wrong_type",
           "n_modes_zero", "n_modes_negative", "n_modes_float_zero", "n_modes_float_negzero", "n_modes_float_negative", "n_modes_float_gt1", "n_modes_str", "n_modes_none", "n_modes_list", "n_modes_gt_rank",
-          "alpha_negative", "unknown_solver",
+          "alpha_negative", "unknown_solver", "rot_n_modes_gt_model",
           "tf_numpy", "tf_missing_dim", "tf_missing_dim_scalar_coord", "tf_missing_dim_sel", "tf_missing_sample_dim", "tf_extra_dim", "tf_renamed_dim", "tf_shifted_coord", "tf_revalued_coord", "tf_fewer_features",
           "tf_dropped_variable", "tf_list_shorter", "tf_list_longer", "tf_da_for_list",
           "inv_unknown_mode", "inv_unknown_mode_normalized", "inv_numpy",
@@ -37,6 +37,8 @@ def applicable(fault, cls):
     if fault == "unknown_solver" and cls == "multi.CCA":
         return False
     if fault in ("n_modes_gt_rank",) and cls in ("multi.CCA", "POP", "OPA"):
+        return False
+    if fault == "rot_n_modes_gt_model" and "Rotator" not in cls:
         return False
     if fault.startswith("n_modes") and cls == "multi.CCA":
         return False
@@ -128,6 +130,9 @@ def run(case):
              "n_modes_gt_rank": 500}[fault]
         c2 = dict(cfg, n_modes=v)
         res = outcome(lambda: fit(cfg=c2))
+    elif fault == "rot_n_modes_gt_model":
+        # a rotator asked to rotate more modes than the model has: refused, not answered with fewer
+        res = outcome(lambda: zoo.fit(cls, data, dim, cfg, rot_cfg={"n_modes": 5, "power": 1})[0])
     elif fault == "alpha_negative":
         res = outcome(lambda: fit(cfg=dict(cfg, alpha=-0.5)))
     elif fault == "ok_alpha_gt1":
